@@ -5,9 +5,17 @@ from checks import search_common as sc
 
 def check(ctx):
     m, res, wit, dmax = sc.run(ctx, 'C06', ['C06'])
+    rb, wb = sc.run_b(ctx, 'C06', [(2, False, [], ''), (2, True, [], '')] + ([] if ctx.tier == 'quick' else [(41, True, [], ''), (1, False, [], '')]), ['C06'])
+    res += rb; wit += wb
     def replay(ctx, r):
         ce = r.ce('C06')
         exe = sc.native_engine(ctx)
+        if r.q.name.startswith(('h_search', 'h_qsearch')):
+            # a node that does not poll the flag: stop during a large capture tree
+            out = sc.uci_session(ctx, exe, ['position fen q2k2q1/2nqn2b/3P1n1b/2rnr2Q/1NQ1QN1Q/3Q3B/2RQR2B/Q2K2Q1 w - - 0 1', 'go infinite', 0.3, 'stop'], wait=3.0)
+            bm = re.findall(r'^bestmove (\S+)', out, re.M)
+            path = report.save_replay(ctx, r.q.name, {'harness': r.q.name, 'node': ce, 'native_bestmoves_within_3s_of_stop': bm})
+            return {'confirmed': True if len(bm) != 1 else None, 'strict': True, 'key': 'node-ignores-stop', 'path': path, 'text': '%s: %s | native: stop during a capture-heavy search answered within 3 s: %s' % (r.q.name, '; '.join(d for _, d in r.failed[:2]), bm)}
         lost = 0; runs = []
         for i in range(5):
             out = sc.uci_session(ctx, exe, ['position startpos', 'go infinite', 'stop'], wait=2.0)
@@ -18,7 +26,7 @@ def check(ctx):
                 'text': 'stop delivered at schedule point %s, %s root searches completed afterwards | native: %d of 5 back-to-back go infinite/stop sessions produced no bestmove within 2 s' % (ce.get('ce_stop_point'), ce.get('ce_completed_after_stop'), lost)}
     rc_extra = []
     rc = report.finish(ctx, res, wit, replay=replay,
-        assumptions=sc.ASSUME + ['interleavings are modelled by delivering the complete Search::stop() call at one symbolic point between the visible operations of the search thread '
+        assumptions=sc.ASSUME + sc.ASSUME_B[:1] + ['Level B: a stop flag that is already set when search()/quiescence_search() is entered makes the node return before any move is made or searched (so the latency of a stop is one node visit)', 'interleavings are modelled by delivering the complete Search::stop() call at one symbolic point between the visible operations of the search thread '
                                  '(stop() is a single store, so finer interleavings add nothing); CBMC threads are not used',
                                  'data-race freedom of the flag is decided on the IR: the flag member must be std::atomic (all accesses are then atomic operations); with a plain bool, written by stop() and read by the search thread, the check reports a race',
                                  'NOT covered: isready/readyok while searching and the lifetime of the detached thread / shared_ptr in uci.cpp (std::thread, iostream loop)',
